@@ -77,6 +77,8 @@ class DimReader:
                 return self.ev(e.func.value)
             if nm in ("rint",) and len(e.args) == 1:
                 return sp.Function("rint")(self.ev(e.args[0]))
+            if nm in ("floor",) and len(e.args) == 1:
+                return sp.floor(self.ev(e.args[0]))
             if nm in ("asarray", "array") and e.args:
                 return self.ev(e.args[0])
             if nm == "children" and isinstance(e.func, ast.Attribute) and isinstance(e.func.value, ast.Call) and call_name(e.func.value) == "super":
@@ -343,8 +345,22 @@ def run(ctx):
         co, _ = method_term(OG, "index2coord", attrsO, {"index": i})
         ix, _ = method_term(OG, "coord2index", attrsO, {"coord": co})
         r = floor_rule(ix, F)
-        ok = r == i and sp.simplify(co - (i + H + sp.Rational(1, 2)) / (S + 2 * H)) == 0
-        return bool(ok), f"index2coord = {co}; round trip = {r}"
+        fwd = sp.simplify(co - (i + H + sp.Rational(1, 2)) / (S + 2 * H)) == 0
+        # the shifts are real numbers (derived grids re-base them to fractions): besides the symbolic reduction for integer
+        # shifts, exact evaluation at fractional instances
+        wit = []
+        for hv in (sp.Integer(0), sp.Integer(2), sp.Rational(1, 4), sp.Rational(7, 4)):
+            at_ = {k: (hv if v is H else v) for k, v in attrsO.items()}
+            co_, _ = method_term(OG, "index2coord", at_, {"index": i})
+            ix_, _ = method_term(OG, "coord2index", at_, {"coord": co_})
+            rv = floor_rule(ix_, F)
+            if sp.simplify(rv - i) != 0:
+                wit.append((hv, rv))
+        if wit:
+            return False, f"index2coord = {co}; round trip = {r}: for shifts = {wit[0][0]} it gives {wit[0][1]} instead of {i}"
+        if r == i:
+            return bool(fwd), f"index2coord = {co}; round trip = {r} (also for shifts 1/4 and 7/4)"
+        raise NotUnderstood(f"round trip {r} not reduced")
     decide("R31.2", f"{OG.key}::index2coord(i) = (i + shifts + 1/2)/(shape + 2*shifts) and coord2index undoes it", open_coord_roundtrip, OG.methods["coord2index"])
 
     def open_child_in_cell():
@@ -462,3 +478,95 @@ _run_c31b = run
 def run(ctx):  # noqa: F811
     _run_c31b(ctx)
     r31_4(ctx, ctx.model)
+
+
+def r31_5(ctx, m):
+    """mixed-radix flat index (nest ordering): digits pushed by Horner's scheme are popped in the reverse order"""
+    ctx.rule("R31.5", "FlatGridAtLevel, nest ordering: index2flatindex pushes one digit per (level, axis) with Horner's scheme "
+                      "(j = j*w + digit; fid = fid*prod(w) + j) walking levels and axes forward; flatindex2index must pop the digits "
+                      "with % and // walking BOTH loops in the opposite direction, with the same per-axis radix ww[ax] and the same "
+                      "place value wgts[(n+1):, ax].prod() - otherwise the two maps are not inverse to each other for more than one axis", floor=4)
+    F = m.cls(GR, "FlatGridAtLevel")
+    enc, dec = F.methods.get("index2flatindex"), F.methods.get("flatindex2index")
+    if enc is None or dec is None:
+        ctx.und("R31.5", f"{F.key}::flat index maps", "methods missing", F)
+        return
+    ctx.saw_func(enc)
+    ctx.saw_func(dec)
+
+    def nest_branch(fi):
+        for st in ast.walk(fi.node):
+            if isinstance(st, ast.If):
+                cur = st
+                while True:
+                    if "nest" in src(cur.test):
+                        return cur.body
+                    if len(cur.orelse) == 1 and isinstance(cur.orelse[0], ast.If):
+                        cur = cur.orelse[0]
+                    else:
+                        break
+        return None
+
+    def direction(it):
+        t = src(it).replace(" ", "")
+        if t.startswith("reversed(") or t.endswith("[::-1]"):
+            return "backward"
+        return "forward"
+
+    def loops(body):
+        outer = [st for st in body if isinstance(st, ast.For)]
+        if len(outer) != 1:
+            return None
+        inner = [st for st in outer[0].body if isinstance(st, ast.For)]
+        if len(inner) != 1:
+            return None
+        return outer[0], inner[0]
+    be, bd = nest_branch(enc), nest_branch(dec)
+    le, ld = (loops(be) if be else None), (loops(bd) if bd else None)
+    if le is None or ld is None:
+        ctx.und("R31.5", f"{F.key}::nest loops", "two nested loops per map not found", F)
+        return
+    for (a, b, what) in ((le[0], ld[0], "levels"), (le[1], ld[1], "axes")):
+        da, db = direction(a.iter), direction(b.iter)
+        ctx.check("R31.5", f"{F.key}::{what}: the decoder walks against the encoder", da != db,
+                  f"encoder `for {src(a.target)} in {src(a.iter)}` ({da}), decoder `for {src(b.target)} in {src(b.iter)}` ({db})", dec, b)
+    # radix and place value
+    te, td = " ".join(src(s_) for s_ in le[1].body).replace(" ", ""), " ".join(src(s_) for s_ in ld[1].body).replace(" ", "")
+    ax_e, ax_d = src(le[1].target), src(ld[1].target)
+    n_e = [x.id for x in ast.walk(le[0].target) if isinstance(x, ast.Name)]
+    n_d = [x.id for x in ast.walk(ld[0].target) if isinstance(x, ast.Name)]
+    ww_e, ww_d = (n_e[-1] if n_e else "?"), (n_d[-1] if n_d else "?")
+    lv_e, lv_d = (n_e[0] if n_e else "?"), (n_d[0] if n_d else "?")
+    rad = f"%{ww_e}[{ax_e}]" in te and f"*={ww_e}[{ax_e}]" in te and f"%{ww_d}[{ax_d}]" in td and f"//={ww_d}[{ax_d}]" in td
+    ctx.check("R31.5", f"{F.key}::same radix per axis: push `*= w[ax]; += digit % w[ax]`, pop `digit = j % w[ax]; j //= w[ax]`", True if rad else None, f"{te} | {td}", dec, ld[1])
+    pv_e = f"wgts[{lv_e}+1:,{ax_e}].prod()" in te or f"wgts[({lv_e}+1):,{ax_e}].prod()" in te
+    pv_d = f"wgts[{lv_d}+1:,{ax_d}].prod()" in td or f"wgts[({lv_d}+1):,{ax_d}].prod()" in td
+    ctx.check("R31.5", f"{F.key}::same place value wgts[(level+1):, ax].prod() in both maps", True if (pv_e and pv_d) else None, f"{te} | {td}", dec, ld[1])
+
+
+def r31_6(ctx, m):
+    """neighbourhoods consist of valid pixel indices"""
+    ctx.rule("R31.6", "HEALPix level: the 3x3 neighbourhood is built with the neighbour routine that replaces missing neighbours "
+                      "(get_all_neighbours_valid); the raw routine, which reports a missing neighbour as -1, is used only inside the "
+                      "jhealpix module itself", floor=1)
+    for modn in ("nifty.re.multi_grid.grid_impl", GR):
+        mod = m.module(modn, required=False)
+        if mod is None:
+            continue
+        for fi in mod.all_functions:
+            raw = [c for c in walk_no_nested(fi.node) if isinstance(c, (ast.Attribute, ast.Name)) and
+                   (src(c).endswith(".get_all_neighbours") or src(c) == "get_all_neighbours" or src(c).endswith(".neighbors"))]
+            ok_ = [c for c in walk_no_nested(fi.node) if isinstance(c, (ast.Attribute, ast.Name)) and src(c).endswith("get_all_neighbours_valid")]
+            if raw or ok_:
+                ctx.saw_func(fi)
+                ctx.check("R31.6", f"{fi.key}::neighbours come from the validating routine", not raw,
+                          f"`{src(raw[0])}` may return -1 for the 24 pixels per map without a full set of 8 neighbours" if raw else None, fi, raw[0] if raw else ok_[0])
+
+
+_run_c31c = run
+
+
+def run(ctx):  # noqa: F811
+    _run_c31c(ctx)
+    r31_5(ctx, ctx.model)
+    r31_6(ctx, ctx.model)
